@@ -90,7 +90,40 @@ def repeat_steps(ctx, prop, case, connection, db, via, kinds, index):
     return connection
 
 
-def run_dataset(ctx, prop, case, via='function', index=0, reference=None, kinds=('rise', 'recession'), nontrivial=None, session=False):
+def reassemble_with_reference(ctx, prop, case, connection, db, via, kinds, index):
+    """The curves are taken apart and assembled again with a reference level picked from the
+    levels of the curve itself (any level, not only those the highest interval crosses); the
+    walker must still be satisfied"""
+    import sqlite3
+
+    rec = ctx.rec
+    rng = ctx.rng('reference', index)
+    gs = case.get('grid_step', 1.0)
+    for kind in kinds:
+        table = 'recession_interval_zeta' if kind == 'recession' else 'rising_interval_zeta'
+        levels = [r[0] for r in connection.execute('SELECT DISTINCT zeta_number FROM {} ORDER BY 1'.format(table))]
+        if len(levels) < 2:
+            continue
+        k = rng.choice(levels)
+        curves_common.clear_curve(connection, kind)
+        if via == 'cli':
+            connection.close()
+        exc = curves_common.run_curve(connection, kind, k * gs, db if via == 'cli' else None)
+        if via == 'cli':
+            connection = sqlite3.connect(db)
+        if exc is not None:
+            key, desc = curves_common.classify_outcome(exc)
+            rec.hit('reassembly-with-a-reference-refused:' + key)
+            continue
+        rec.hit('curves-reassembled-with-a-reference-level')
+        findings, stats = oracle_curves.walk_curve(connection, kind, k, None)
+        for p, key, w in findings:
+            if p == prop:
+                rec.violation('with-a-reference-level:' + key, dict(w, reference_mm=k * gs), dict(case, reference={kind: k * gs}), 'dataset')
+    return connection
+
+
+def run_dataset(ctx, prop, case, via='function', index=0, reference=None, kinds=('rise', 'recession'), nontrivial=None, session=False, with_reference=False):
     """Returns dict kind -> (findings, stats) for the curves that assembled"""
     rec = ctx.rec
     rec.case()
@@ -166,7 +199,9 @@ def run_dataset(ctx, prop, case, via='function', index=0, reference=None, kinds=
                 rec.sample({'generator': case.get('kind'), 'curve': kind, 'step_s': case['step'], 'grid_step_mm': case.get('grid_step'),
                             'n_steps': len(case['rain']), 'intervals_in_curve': stats.get('intervals-in-curve'),
                             'levels': stats.get('n_levels'), 'components': stats.get('components')})
-        if session and len(out) == len(kinds):
+        if with_reference and out:
+            connection = reassemble_with_reference(ctx, prop, case, connection, db, via, [k for k in kinds if k in out], index)
+        elif session and len(out) == len(kinds):
             connection = repeat_steps(ctx, prop, case, connection, db, via, kinds, index)
     finally:
         connection.close()
